@@ -357,6 +357,20 @@ func (c C02) gate(e *c2Exec, op drv.Op) (*drv.Violation, error) {
 	if e.mode == "admintoken" && r.IntN(2) == 0 {
 		tq = "admintoken=" + e.token
 	}
+	if e.mode == "admintoken" && tq == "" {
+		// a request carrying the token precedes the token-less probes: the privilege must not stick
+		if _, _, err := w.HTTP("GET", "/api/node/"+u+"/kv/keys?admintoken="+e.token, nil); err != nil {
+			return nil, err
+		}
+		if _, _, err := w.HTTP("POST", "/api/node/"+u+"/log?admintoken="+e.token, []byte(`{"log":["by admin"]}`)); err != nil {
+			return nil, err
+		}
+		for _, v2 := range committed {
+			if err := e.recordCommitted(v2); err != nil {
+				return nil, err
+			}
+		}
+	}
 	withQ := func(url string) string {
 		if tq == "" {
 			return url
